@@ -139,6 +139,9 @@ pub struct SimOpts {
     pub force_fallible: Option<bool>,
     /// several threads drive arenas concurrently: only drain this arena's ledger events
     pub threaded: bool,
+    /// C07 metamorphic twins: 0 = as decoded, 1 = every set_allocation_limit is skipped,
+    /// 2 = every set_allocation_limit(x) is immediately followed by set_allocation_limit(None)
+    pub limit_mode: u8,
 }
 
 pub struct Sim<const M: usize> {
